@@ -339,6 +339,121 @@ def build(ctx):
         ctx.cover('df_slice.single.equal_times_do_not_wrap', bf() + pre + axioms + scalars + [isa(ub1, 'datetime.time'), isa(lb1, 'datetime.time'), KEY(lb1) == KEY(ub1)])
     ctx.guarded('df_slice.single', scalar_section)
 
+    # =========================================================================================== df_slice: n columns
+    def columns_section():
+        fdef = m.func('df_slice')
+        guard = find(fdef, lambda x: isinstance(x, ast.If) and isinstance(x.test, ast.Compare) and ast.unparse(x.test.left) == 'n' and isinstance(x.test.ops[0], ast.Gt)
+                     and ast.unparse(x.test.comparators[0]) == '1', 'the `if n > 1` block of df_slice')
+        asg = [s for s in guard.body if isinstance(s, ast.Assign) and isinstance(s.value, ast.ListComp)]
+        loops = [s for s in guard.body if isinstance(s, ast.For)]
+        if len(asg) != 1 or len(loops) != 1 or len(guard.body) != 2 or not isinstance(asg[0].targets[0], ast.Name):
+            raise SelectorError('df_slice: the n > 1 block is not one comprehension followed by the column renaming loop')
+        dname = asg[0].targets[0].id
+        NN = Int('NCOLS')
+        th, ths = theories()
+        ex = Exec(m, ths, name='df_slice.columns')
+        st = State(env={dname: D, 'n': I(NN)})
+        st.pc += [N >= 0, NN >= 2]
+        outs = ex.run_block(st, [asg[0]])
+        ctx.absorb(ex); ctx.record_function(m, 'df_slice', fdef, ex.stmts_executed)
+        i, j = Int('I'), Int('J')
+        width = If(i + NN <= N, NN, N - i)
+        rp = replay_lists('columns')
+        for o in outs:
+            hy = ex.facts + bf() + o.st.pc
+            if o.kind != 'next':
+                ctx.post('df_slice.columns.never_raises', hy, BoolVal(False), kind='safety', witness=dict(n=N), replay=rp)
+                continue
+            v = o.st.env[dname]
+            n_l, at_l = ex.iterate(o.st, v)
+            s2 = o.st.fork()
+            cell = at_l(s2, i)
+            ctx.post('df_slice.columns.one_frame_per_series', hy, n_l == N, witness=dict(n=N), replay=rp)
+            evs = [e for e in th.calls('pd.concat', 'fcall') if e['args'] and e['args'][0].kind in ('plist', 'lazylist')]
+            ok = cell.kind == 'pv' and bool(evs)
+            sub = th.as_plist(ex, s2, evs[-1]['args'][0]) if ok else None
+            ctx.post('df_slice.columns.frame_i_puts_series_i_plus_j_into_column_j_and_is_sorted', ex.facts + bf() + s2.pc + [0 <= i, i < N, 0 <= j, j < width],
+                     And(sub.n == width, lat(sub, j) == lat(D, i + j),
+                         cell.t == M('sort_index', F('pd.concat', tp.sv_pv(sub), axis=1))) if ok else BoolVal(False), witness=dict(n=N, i=i, j=j), replay=rp)
+        lp = loops[0]
+        lv = lp.target.id if isinstance(lp.target, ast.Name) else None
+        ok_loop = (lv is not None and isinstance(lp.iter, ast.Name) and lp.iter.id == dname and len(lp.body) == 1 and isinstance(lp.body[0], ast.Assign)
+                   and ast.unparse(lp.body[0].targets[0]) == '%s.columns' % lv and ast.unparse(lp.body[0].value) == 'range(%s.shape[1])' % lv)
+        ctx.post('df_slice.columns.columns_are_renumbered_from_zero', [], BoolVal(ok_loop), kind='syntactic')
+        ctx.trust('df_slice n > 1: the column renumbering loop `for d in df: d.columns = range(d.shape[1])` is checked on the AST text only')
+        ctx.cover('df_slice.columns.short_tail_reachable', [N == 4, NN == 3, i == 2])
+    ctx.guarded('df_slice.columns', columns_section)
+
+    # =========================================================================================== _is_non_decreasing
+    def mono_section():
+        fdef = m.func('_is_non_decreasing')
+        V = fresh_plist('BOUNDS', n=N)
+        th, ths = theories()
+        ex = Exec(m, ths, name='_is_non_decreasing')
+        st = State(); st.pc += [N >= 0]
+        outs = run_def(ex, st, fdef, [V])
+        ctx.absorb(ex); ctx.record_function(m, '_is_non_decreasing', fdef, ex.stmts_executed)
+        # bounds with an open end (None first / last) are judged without it
+        q = Int('Q')
+        drop_last = lat(V, N - 1) == NONEPV
+        n1 = If(drop_last, N - 1, N)
+        drop_first = lat(V, 0) == NONEPV
+        n2 = If(drop_first, n1 - 1, n1)
+        off = If(drop_first, 1, 0)
+        core = tp.MKLIST(n2, Lambda([q], z3.Select(V.arr, q + off)))
+        rev = tp.MKLIST(n2, Lambda([q], z3.Select(V.arr, n2 - 1 - q + off)))
+        srt = F('sorted', core)
+        rp = replay_lists('mono')
+        for o in outs:
+            hy = ex.facts + bf() + o.st.pc
+            w = dict(n=N)
+            if o.kind == 'raise':
+                ctx.post('_is_non_decreasing.raises_only_ValueError_for_bounds_in_neither_order', hy, And(BoolVal(o.val == 'ValueError'), N >= 2, srt != core, srt != rev),
+                         kind='safety', witness=w, replay=rp)
+                continue
+            if o.val.kind != 'bool':
+                ctx.post('_is_non_decreasing.returns_a_bool', hy, BoolVal(False), witness=w, replay=rp)
+                continue
+            ctx.post('_is_non_decreasing.fewer_than_two_bounds_count_as_increasing', hy + [N < 2], o.val.t, witness=w, replay=rp)
+            ctx.post('_is_non_decreasing.true_iff_the_bounds_without_open_ends_equal_their_sorted_order', hy + [N >= 2], o.val.t == (srt == core), witness=w, replay=rp)
+            ctx.post('_is_non_decreasing.false_only_for_the_reverse_of_the_sorted_order', hy + [N >= 2, Not(o.val.t)], srt == rev, witness=w, replay=rp)
+        ctx.trust('sorted() is uninterpreted: that "equal to its sorted order" means non-decreasing is Python\'s, not proved here')
+    ctx.guarded('_is_non_decreasing', mono_section)
+
+    # =========================================================================================== df_unslice: the intervals it reads back
+    def unslice_section():
+        fdef = m.func('df_unslice')
+        calls = [c for c in walk_no_defs(fdef) if isinstance(c, ast.Call) and ast.unparse(c.func) == 'dictable' and any(q.arg == 'lb' for q in c.keywords)
+                 and any(q.arg == 'ub' for q in c.keywords)]
+        lams = [l for l in ast.walk(fdef) if isinstance(l, ast.Lambda) and [a.arg for a in l.args.args] == ['lb', 'ub']]
+        if len(calls) != 1 or len(lams) != 1:
+            raise SelectorError('df_unslice: expected dictable(ub = ub, lb = ..., ...) and one lambda lb, ub: ...')
+        UBl = fresh_plist('UBS', n=N)
+        th, ths = theories()
+        ex = Exec(m, ths, name='df_unslice')
+        st = State(env=dict(ub=UBl, df=P(DF)))
+        st.pc += [N >= 1]
+        kw = {q.arg: q.value for q in calls[0].keywords}
+        lbv = ex.eval(st, kw['lb'])
+        ubv = ex.eval(st, kw['ub'])
+        i = Int('I')
+        rp = replay_lists('unslice')
+        lbl, ubl = th.as_plist(ex, st, lbv), th.as_plist(ex, st, ubv)
+        hy = ex.facts + bf() + st.pc
+        ctx.post('df_unslice.interval_i_runs_from_the_previous_upper_bound_to_upper_bound_i', hy + [0 <= i, i < N],
+                 And(lbl.n == N, ubl.n == N, lat(ubl, i) == lat(UBl, i), lat(lbl, i) == If(i == 0, NONEPV, lat(UBl, i - 1))), witness=dict(n=N, i=i), replay=rp)
+        for pend in st.pending:
+            ctx.post('df_unslice.interval_lists_never_raise', ex.facts + bf() + pend.st.pc, BoolVal(False), kind='safety', witness=dict(n=N), replay=rp)
+        fn = ex.eval(State(env=dict(df=P(DF))), lams[0])
+        s2 = State(env=dict(df=P(DF)))
+        v = ex.call_func(s2, fn, [P(LB), P(UB)], {})
+        ctx.absorb(ex)
+        ctx.record_function(m, 'df_unslice', fdef, set(), how='the interval lists and the slicing lambda are symbolically executed',
+                            excluded=['dictable pipeline (per-column split, concat per original bound, nona): bounded only'])
+        ctx.post('df_unslice.each_interval_is_read_back_half_open_on_the_left', ex.facts + bf() + s2.pc,
+                 v.t == R('df_slice', DF, LB, UB, '(]', 1) if v.kind == 'pv' else BoolVal(False), witness=dict(n=N), replay=rp)
+    ctx.guarded('df_unslice', unslice_section)
+
     ctx.trust('pandas semantics (df[mask], df[lb:ub] closed-closed on a sorted datetime index and closed-open positionally otherwise, index >= bound, '
               'index.time, pd.concat, sort_index) are uninterpreted here and decided by the bounded stand-in rac/C13.py only')
     ctx.trust('that the concatenation of the slices (ub[i-1], ub[i]] covers each timestamp at most once follows from the per-slice bounds proved here and '
